@@ -147,6 +147,17 @@ impl Prop for C02 {
                 let mut scn = new_scenario("C02", "grid", coin);
                 scn.chain = chain.clone();
                 scn.layouts = vec![single_file_layout(scn.chain.len())];
+                if t % 2 == 0 {
+                    // the directory of a node that is running: pid file of a live process, lock file
+                    for (name, body) in [("bitcoind.pid", &b"1\n"[..]), (".lock", &b""[..])] {
+                        scn.layouts[0].extra_files.push(ExtraFile {
+                            name: name.into(),
+                            bytes: Bytes(body.to_vec()),
+                            is_dir: false,
+                            symlink_to: None,
+                        });
+                    }
+                }
                 scn.index = index_opts(rng);
                 let mut r = RunSpec::new(cb);
                 r.start = s;
@@ -188,6 +199,21 @@ impl Prop for C02 {
             h.stats.probe("index_with_ignored_competitors");
         }
         scn.index = index_opts(rng);
+        // the blocks directory of a node that is running right now: pid file of a live process (pid 1), lock,
+        // log — the range is decided by the index and the options alone
+        if rng.coin() {
+            for (name, body) in [("bitcoind.pid", &b"1\n"[..]), ("dogecoind.pid", &b"1\n"[..]), (".lock", &b""[..]), ("debug.log", &b"UpdateTip\n"[..])] {
+                if rng.coin() {
+                    scn.layouts[0].extra_files.push(ExtraFile {
+                        name: name.into(),
+                        bytes: Bytes(body.to_vec()),
+                        is_dir: false,
+                        symlink_to: None,
+                    });
+                }
+            }
+            h.stats.probe("live_node_files_in_blocks_dir");
+        }
         let t = base + n as u64 - 1;
         let mut r = RunSpec::new(cb);
         r.threads = pick_threads(rng);
@@ -235,6 +261,8 @@ impl Prop for C02 {
                 xor_key: None,
                 magic_mode: 0,
                 xor_symlink: false,
+                link_chain: false,
+                side_xor: None,
                 extra_files: vec![],
             }];
             r.disk_faults = (base..s0).map(|hh| DiskFault::RemoveFile { height: hh }).collect();
